@@ -1099,6 +1099,12 @@ def family_deriv(ctx, i, rng):
         if second:
             du2 = U.arg(uname, 1) if rng.random() < 0.6 else U.coef(uname, 5)
             dF = ufl.derivative(dF, u, du2)
+        if rng.random() < 0.35:
+            # the lazy derivative node below another operator instead of at the integrand root
+            dF = rng.choice([2, -1, 0.5]) * dF
+            if not as_form and rng.random() < 0.5:
+                dF = dF + F
+            ctx.count("deriv_nested_below_operator")
         # mapping
         mode = rng.choice(["other", "other", "direction", "variable", "image-has-u", "mixed", "absent"])
         if const_under_grad is not None:
